@@ -13,6 +13,7 @@ import KojenVerif.Model.Conc
 import KojenVerif.Model.Engine
 import KojenVerif.Model.EngineSpec
 import KojenVerif.Model.Vpp
+import KojenVerif.Model.Uml
 import KojenVerif.Lemmas.EngineWF
 /-
   Line-protocol driver: one JSON object per input line, one JSON object per output line.
@@ -659,6 +660,20 @@ def handle (j : Json) : Except String Json := do
       pure (Json.mkObj [("r", Json.arr #[jOpt r.to_, jOpt r.from_, jOpt r.guard, jOpt r.effect])])
     | "parseGuardName" => pure (Json.mkObj [("r", jOpt (Vpp.parseGuardName (← getStr j "blob")))])
     | o => throw s!"vppfn {o}"
+  | "uml" => do
+    let templates ← getStrs j "templates"
+    let folders ← getBool j "folders"
+    let diagram ← getStr j "diagram"
+    let namespaces ← getStrs j "namespaces"
+    let elems ← (← (← j.getObjVal? "elems").getArr?).toList.mapM (fun x => do
+      let a ← x.getArr?
+      match a.toList with
+      | [n, ns, e, s, ag, pv] => do
+        pure ({ name := ← asStr n, ns := ← asStr ns, isEnum := ← e.getBool?, isStruct := ← s.getBool?, autogen := ← ag.getBool?, pvi := ← pv.getBool? } : Uml.Elem)
+      | _ => throw "elem")
+    pure (Json.mkObj [("files", jStrs (Uml.fileList templates folders diagram elems namespaces)),
+                      ("per_elem", Json.arr (elems.map (fun e => Json.mkObj [("name", jStr e.name), ("files", jStrs (Uml.filesOf templates folders e)),
+                          ("begin", jStr (Uml.nsBegin e.ns)), ("end", jStr (Uml.nsEnd e.ns))])).toArray)])
   | "runref" => do
     let t ← parseRows (← j.getObjVal? "tt")
     let silent ← getBool j "silent"
